@@ -263,3 +263,62 @@ def cand_pins(spec, c: Cand, sels, dyn, pin_horizon=False):
             pins[f"lo:{w}:{t}"] = lo
             pins[f"hi:{w}:{t}"] = hi
     return pins
+
+
+def cand_from_pins(spec, pins):
+    """rebuild the generated candidate a pin set denotes (inverse of cand_pins); None when
+    the pins do not denote a complete decision vector for this spec"""
+    sv = SpecView(spec)
+    H = spec.get("horizon")
+    choice = {}
+    for ts in spec["tasks"]:
+        tid = ts["id"]
+        if ts.get("optional") and pins.get(f"x:{tid}") is False:
+            choice[tid] = None
+            continue
+        if f"s:{tid}" not in pins or f"e:{tid}" not in pins:
+            return None
+        s_, e_ = pins[f"s:{tid}"], pins[f"e:{tid}"]
+        d_ = pins.get(f"d:{tid}", e_ - s_)
+        choice[tid] = (s_, e_, d_)
+    sels = {}
+    for sel in spec.get("selects", []):
+        users = [a["task"] for a in spec.get("assign", []) if a["resource"] == sel["id"]]
+        if not users:
+            continue
+        if not any(choice.get(t) is not None for t in users):
+            sels[sel["id"]] = frozenset()
+            continue
+        chosen = set()
+        for w in sel["workers"]:
+            v = pins.get(f"sel:{sel['id']}:{w}")
+            if v is None:
+                return None
+            if v:
+                chosen.add(w)
+        sels[sel["id"]] = frozenset(chosen)
+    dyn = {}
+    for a in spec.get("assign", []):
+        if a.get("dynamic") and a["resource"] in sv.worker:
+            if choice.get(a["task"]) is None:
+                dyn[(a["resource"], a["task"])] = (None, None)
+            else:
+                lo, hi = pins.get(f"lo:{a['resource']}:{a['task']}"), pins.get(f"hi:{a['resource']}:{a['task']}")
+                if lo is None or hi is None:
+                    return None
+                dyn[(a["resource"], a["task"])] = (lo, hi)
+    if H is None:
+        H = max([c[1] for c in choice.values() if c is not None] + [0])
+    c = build_candidate(sv, H, choice, sels, dyn)
+    return c, sels, dyn
+
+
+def has_valid(spec, rng, limit=2500):
+    """does the reference model know at least one VALID candidate? (True / False / None=unknown)"""
+    allc = enumerate_all(spec, limit=limit) if spec.get("horizon") is not None and spec["horizon"] <= 9 else None
+    if allc is not None:
+        if any(st == V for st, *_ in allc):
+            return True
+        return None if any(st == U for st, *_ in allc) else False
+    got = sample(spec, rng, tries=120, want=1)
+    return True if any(st == V for st, *_ in got) else None
